@@ -4,9 +4,10 @@ p=$1; sd=/tmp/seed_$p/_seed; sc=/tmp/seedverify_$p
 git -C /repo worktree remove --force $sc >/dev/null 2>&1
 git -C /repo worktree add -q $sc HEAD || exit 9
 cd $sc
-r0=$(PYTHONPATH=$sc PYTHONDONTWRITEBYTECODE=1 timeout 900 /venv/bin/python $sd/demo.py >/dev/null 2>&1; echo $?)
+mkdir -p $sc/_seedcopy && cp $sd/demo.py $sc/_seedcopy/demo.py
+r0=$(PYTHONPATH=$sc PYTHONDONTWRITEBYTECODE=1 timeout 900 /venv/bin/python $sc/_seedcopy/demo.py >/dev/null 2>&1; echo $?)
 git apply $sd/patch.diff; ra=$?
-r1=$(PYTHONPATH=$sc PYTHONDONTWRITEBYTECODE=1 timeout 900 /venv/bin/python $sd/demo.py >/dev/null 2>&1; echo $?)
+r1=$(PYTHONPATH=$sc PYTHONDONTWRITEBYTECODE=1 timeout 900 /venv/bin/python $sc/_seedcopy/demo.py >/dev/null 2>&1; echo $?)
 t=$(timeout 1500 /venv/bin/python -m pytest -q -p no:cacheprovider --timeout=900 --deselect tests/test_map_collection.py::test_maps 2>&1 | tail -1)
 cd /; git -C /repo worktree remove --force $sc
 echo "$p pristine=$r0 apply=$ra patched=$r1 tests: $t"
